@@ -259,7 +259,7 @@ func (r *run) setupProducer() {
 // bootstrap produces block 1: the validators' multisig funds every account.
 func (r *run) bootstrapTxs() []*transaction.Transaction {
 	var txs []*transaction.Transaction
-	v := r.P.Exec.Validator
+	v := r.prod.validatorSigner() // the validators' multisig address holds the initial NEO and GAS
 	for i := 0; i < numAccounts; i++ {
 		for _, tok := range []util.Uint160{nativehashes.GasToken, nativehashes.NeoToken} {
 			amount := int64(20000_00000000)
